@@ -275,4 +275,190 @@ Section Progress.
     destruct (fair_quiescence _ _ _ _ _ _ _ _ _ Hr Ha Hc H0 He Hf) as (t & _ & _ & _ & _ & Hd).
     exists t. exact (Hd Habc).
   Qed.
+
+  (** * the reader as well: from any reachable state (the source still producing), with no keystroke
+      and no command change in flight, every weakly fair execution -- the reader thread included --
+      first sees the source end and then comes to rest *)
+  Definition inner2 (s : st) (l : label) : Prop :=
+    match l with LQuery _ | LCmd _ => False | LHb => 0 < hbq s | _ => True end.
+  Definition nocmd (s : st) : Prop := no_cmd (map amop_of (pc s)) = true.
+
+  Lemma inner_inner2 s l : inner s l -> inner2 s l.
+  Proof. destruct l; cbn; auto. Qed.
+
+  Lemma no_cmd_app a b : no_cmd (a ++ b) = no_cmd a && no_cmd b.
+  Proof. unfold no_cmd. apply forallb_app. Qed.
+
+  Lemma step_reader_frame s l s' : nocmd s -> inner2 s l -> step s l = Some s' ->
+    nocmd s' /\
+    (l = LPush -> alive s = true /\ alive s' = true /\ List.length (src s') < List.length (src s)) /\
+    (l = LEof -> alive s = true /\ alive s' = false) /\
+    (l <> LPush -> l <> LEof -> alive s' = alive s /\ src s' = src s).
+  Proof.
+    unfold nocmd. intros Hn Hi Hs. destruct l; cbn in Hi; try contradiction; cbn in Hs.
+    - destruct (alive s) eqn:Ha; [|discriminate]. destruct (src s) as [|x r] eqn:Hsr; [discriminate|].
+      inversion Hs; subst s'; clear Hs. cbn. repeat split; auto; try congruence; try lia.
+    - destruct (alive s) eqn:Ha; [|discriminate]. destruct (src s) as [|x r] eqn:Hsr; [|discriminate].
+      inversion Hs; subst s'; clear Hs. cbn. repeat split; auto; try congruence.
+    - unfold step_matcher in Hs. destruct (mt s) as [m|]; [|discriminate]. destruct (ph m); try discriminate. inversion Hs; subst; cbn. repeat split; auto; congruence.
+    - unfold step_matcher in Hs. destruct (mt s) as [m|]; [|discriminate]. destruct (ph m); try discriminate. destruct (locked s); [discriminate|]. inversion Hs; subst; cbn. repeat split; auto; congruence.
+    - unfold step_matcher in Hs. destruct (mt s) as [m|]; [|discriminate]. destruct (ph m); try discriminate. inversion Hs; subst; cbn. repeat split; auto; congruence.
+    - unfold step_matcher in Hs. destruct (mt s) as [m|]; [|discriminate]. destruct (ph m); try discriminate. inversion Hs; subst; cbn. repeat split; auto; congruence.
+    - unfold step_matcher in Hs. destruct (mt s) as [m|]; [|discriminate]. destruct (ph m); try discriminate. inversion Hs; subst; cbn. repeat split; auto; congruence.
+    - unfold step_matcher in Hs. destruct (mt s) as [m|]; [|discriminate]. destruct (ph m); try discriminate. inversion Hs; subst; cbn. repeat split; auto; congruence.
+    - destruct (linger s); [|discriminate]. inversion Hs; subst; cbn. repeat split; auto; congruence.
+    - destruct (timer s); [|discriminate]. inversion Hs; subst; cbn. repeat split; auto; congruence.
+    - (* the event loop: no command change is pending, so the source stays as it is *)
+      unfold exec_main in Hs. destruct (pc s) as [|op rest] eqn:Hpc; [discriminate|].
+      unfold no_cmd in Hn. cbn [map forallb] in Hn. apply andb_true_iff in Hn as [Hop Hrest].
+      assert (Hfin : forall p, forallb (fun o => match o with AKillC | AJoinC => false | _ => true end) (map amop_of p) = true ->
+                               no_cmd (map amop_of (p ++ rest)) = true).
+      { intros p Hp. unfold no_cmd. rewrite map_app, forallb_app, Hp, Hrest. reflexivity. }
+      destruct op as [ |sv|r|r| | |c|c r| | |sr|sr]; cbn [amop_of] in Hop; try discriminate.
+      + inversion Hs; subst. split; [apply (Hfin [HbReadR _]); reflexivity|]. cbn. repeat split; auto; congruence.
+      + inversion Hs; subst. split; [destruct sv; [apply (Hfin [HbHarvest _; HbReadC _]) | apply (Hfin [HbReadC _])]; reflexivity|]. cbn. repeat split; auto; congruence.
+      + destruct (mt s) as [m|]; [|discriminate]. destruct (flag m); [|discriminate]. inversion Hs; subst.
+        split; [apply (Hfin []); reflexivity|]. cbn. repeat split; auto; congruence.
+      + inversion Hs; subst. split; [|cbn; repeat split; auto; congruence]. cbn [pc].
+        destruct (negb (r && consumed s) && match mt s with None => true | Some _ => false end);
+          [apply (Hfin [Restart; S1ReadC]) | apply (Hfin [S1ReadC])]; reflexivity.
+      + destruct (mt s); [discriminate|]. destruct (rdone s).
+        * inversion Hs; subst. split; [apply (Hfin []); reflexivity|]. cbn. repeat split; auto; congruence.
+        * destruct (locked s); [discriminate|]. destruct (pool_append nres (pl s) (resv s) (rbuf s)).
+          inversion Hs; subst. split; [apply (Hfin []); reflexivity|]. cbn. repeat split; auto; congruence.
+      + inversion Hs; subst. split; [apply (Hfin [S1ReadR _]); reflexivity|]. cbn. repeat split; auto; congruence.
+      + inversion Hs; subst. split; [apply (Hfin [S1Decide _ _]); reflexivity|]. cbn. repeat split; auto; congruence.
+      + destruct (negb (f1 s || f0 s || fsync s)); [inversion Hs; subst; split; [apply (Hfin []); reflexivity|]; cbn; repeat split; auto; congruence|].
+        destruct (r && c && match mt s with None => true | Some _ => false end); inversion Hs; subst;
+          (split; [apply (Hfin []); reflexivity|]; cbn; repeat split; auto; congruence).
+      + destruct (mt s); inversion Hs; subst; (split; [apply (Hfin [JoinQ]); reflexivity|]; cbn; repeat split; auto; congruence).
+      + destruct ((match mt s with Some m => match ph m with PExited => true | _ => false end | None => true end) && negb (linger s)); [|discriminate].
+        inversion Hs; subst. split; [apply (Hfin [Restart]); reflexivity|]. cbn. repeat split; auto; congruence.
+    - destruct (pc s) eqn:Hpc; [|discriminate]. inversion Hs; subst; cbn. repeat split; auto; congruence.
+  Qed.
+
+  (** phase 1: the source ends *)
+  Definition ended (s : st) : bool := negb (alive s).
+  Definition rrank (s : st) : nat := List.length (src s).
+  Definition rhelp (s : st) : label := match src s with [] => LEof | _ => LPush end.
+
+  Lemma reader_help s : nocmd s -> ended s = false -> inner2 s (rhelp s) /\ exists s', step s (rhelp s) = Some s'.
+  Proof.
+    intros _ He. unfold ended in He. apply negb_false_iff in He. unfold rhelp. destruct (src s) as [|x r] eqn:Hs.
+    - split; [exact I|]. cbn. rewrite He, Hs. eauto.
+    - split; [exact I|]. cbn. rewrite He, Hs. eauto.
+  Qed.
+
+  Lemma reader_step s l s' : nocmd s -> ended s = false -> inner2 s l -> step s l = Some s' ->
+    nocmd s' /\ (ended s' = true \/ rrank s' < rrank s \/ (l <> rhelp s /\ rrank s' = rrank s /\ rhelp s' = rhelp s)).
+  Proof.
+    intros Hn He Hi Hs. destruct (step_reader_frame s l s' Hn Hi Hs) as (Hn' & Hpush & Heof & Hoth).
+    split; [exact Hn'|]. unfold ended, rrank, rhelp in *.
+    destruct l; try (right; right; destruct (Hoth ltac:(discriminate) ltac:(discriminate)) as [Ha Hsr]; rewrite Hsr;
+                     split; [destruct (src s); discriminate | split; reflexivity]).
+    - right. left. destruct (Hpush eq_refl) as (_ & _ & H). exact H.
+    - left. destruct (Heof eq_refl) as (_ & H). rewrite H. reflexivity.
+  Qed.
+
+  Lemma exec_nocmd sigma lam : exec st label step inner2 sigma lam -> nocmd (sigma 0) -> forall t, nocmd (sigma t).
+  Proof.
+    intros He H0 t. induction t as [|t IH]; [exact H0|].
+    specialize (He t). destruct (lam t) as [l|].
+    - destruct He as [Hi Hs]. exact (proj1 (step_reader_frame _ _ _ IH Hi Hs)).
+    - rewrite He. exact IH.
+  Qed.
+
+  Lemma exec_ended_stays sigma lam : exec st label step inner2 sigma lam -> nocmd (sigma 0) ->
+    forall t u, alive (sigma t) = false -> alive (sigma (t + u)) = false.
+  Proof.
+    intros He H0 t u Ha. induction u as [|u IH]; [rewrite Nat.add_0_r; exact Ha|].
+    replace (t + S u) with (S (t + u)) by lia. pose proof (exec_nocmd sigma lam He H0 (t + u)) as Hn.
+    specialize (He (t + u)). destruct (lam (t + u)) as [l|].
+    - destruct He as [Hi Hs]. destruct (step_reader_frame _ _ _ Hn Hi Hs) as (_ & Hpush & Heof & Hoth).
+      destruct l; try (rewrite (proj1 (Hoth ltac:(discriminate) ltac:(discriminate))); exact IH).
+      + destruct (Hpush eq_refl) as (H & _). congruence.
+      + destruct (Heof eq_refl) as (_ & H). exact H.
+    - rewrite He. exact IH.
+  Qed.
+
+  Theorem fair_quiescence_any source q0 a b c ls s0 (sigma : nat -> st) (lam : nat -> option label) :
+    run (init source q0 a b c) ls = Some s0 -> no_cmd (map amop_of (pc s0)) = true ->
+    sigma 0 = s0 ->
+    exec st label step inner2 sigma lam -> wfair st label step inner2 sigma lam ->
+    exists t, quiescent (sigma t) /\ hbq (sigma t) = 0 /\ timer (sigma t) = false /\
+              (ncie = false -> Permutation (L (sigma t)) (complete nres mp (sigma t))) /\
+              (a || b || c = true -> decided (sigma t) <> None).
+  Proof.
+    intros Hr Hc H0 He Hf. subst s0.
+    (* phase 1 *)
+    destruct (fair_reaches st label step ended rrank rhelp nocmd inner2 reader_help reader_step sigma lam He Hf Hc) as (t1 & Hn1 & He1).
+    unfold ended in He1. apply negb_true_iff in He1.
+    (* the state at t1 is reachable: the run so far, then the steps of the execution *)
+    assert (Hreach : forall t, exists ls', run (init source q0 a b c) ls' = Some (sigma t)).
+    { induction t as [|t [ls' IH]]; [exists ls; exact Hr|].
+      pose proof (He t) as E. destruct (lam t) as [l|].
+      - destruct E as [_ Hs]. exists (ls' ++ [l]).
+        assert (Happ : forall l1 l2 x, run x (l1 ++ l2) = match run x l1 with Some y => run y l2 | None => None end).
+        { induction l1 as [|z l1 IH1]; intros l2 x; cbn; [reflexivity|]. destruct (step x z); [apply IH1|reflexivity]. }
+        rewrite Happ, IH. cbn. rewrite Hs. reflexivity.
+      - exists ls'. rewrite E. exact IH. }
+    destruct (Hreach t1) as [ls1 Hr1].
+    (* phase 2: the suffix is an execution of internal steps, weakly fair *)
+    set (sigma' := fun u => sigma (t1 + u)). set (lam' := fun u => lam (t1 + u)).
+    assert (He' : exec st label step inner sigma' lam').
+    { intros u. unfold sigma', lam'. pose proof (He (t1 + u)) as E. replace (t1 + S u) with (S (t1 + u)) by lia.
+      destruct (lam (t1 + u)) as [l|]; [|exact E]. destruct E as [Hi Hs]. split; [|exact Hs].
+      pose proof (exec_ended_stays sigma lam He Hc t1 u He1) as Hal.
+      destruct l; cbn in Hi |- *; auto; cbn in Hs; rewrite Hal in Hs; discriminate. }
+    assert (Hf' : wfair st label step inner sigma' lam').
+    { intros l u. destruct (Hf l (t1 + u)) as (t' & Hle & Hx). exists (t' - t1). split; [lia|].
+      unfold sigma', lam'. replace (t1 + (t' - t1)) with t' by lia.
+      destruct Hx as [Hx|Hx]; [left; exact Hx|right; intros Hi; apply Hx, inner_inner2, Hi]. }
+    assert (H0' : sigma' 0 = sigma t1) by (unfold sigma'; f_equal; lia).
+    destruct (fair_quiescence source q0 a b c ls1 (sigma t1) sigma' lam' Hr1 He1 Hn1 H0' He' Hf') as (u & Hq).
+    exists (t1 + u). exact Hq.
+  Qed.
+
+  (** executions of that kind exist, too (the finite-run construction for [inner2]) *)
+  Definition inner2_b (s : st) (l : label) : bool :=
+    match l with LQuery _ | LCmd _ => false | LHb => (0 <? hbq s)%nat | _ => true end.
+  Lemma inner2_b_ok s l : inner2_b s l = true -> inner2 s l.
+  Proof. destruct l; cbn; intros H; try discriminate; auto. apply Nat.ltb_lt. exact H. Qed.
+  Fixpoint all_inner2 (ls : list label) (s : st) : bool :=
+    match ls with
+    | [] => true
+    | l :: r => inner2_b s l && match step s l with Some s' => all_inner2 r s' | None => false end
+    end.
+  Definition dead2 (s : st) : Prop := forall l, inner2 s l -> step s l = None.
+
+  Lemma finite_exec2 ls : forall s, all_inner2 ls s = true ->
+    exec st label step inner2 (state_at ls s) (nth_error ls).
+  Proof.
+    induction ls as [|l r IH]; intros s Ha t.
+    - destruct t; reflexivity.
+    - cbn in Ha. apply andb_true_iff in Ha as [Hi Hr]. destruct (step s l) as [s'|] eqn:Hs; [|discriminate].
+      destruct t as [|t].
+      + cbn. rewrite Hs. split; [apply inner2_b_ok; exact Hi|]. destruct r; reflexivity.
+      + specialize (IH s' Hr t). cbn [nth_error]. cbn [state_at]. rewrite Hs.
+        destruct (nth_error r t) as [l'|] eqn:Hn.
+        * destruct IH as [H1 H2]. split; [exact H1|]. rewrite H2. destruct r; [destruct t; discriminate|reflexivity].
+        * rewrite <- IH. destruct r; reflexivity.
+  Qed.
+
+  Lemma finite_fair2 ls s s' : run s ls = Some s' -> dead2 s' -> wfair st label step inner2 (state_at ls s) (nth_error ls).
+  Proof.
+    intros Hr Hd l t. exists (Nat.max t (List.length ls)). split; [lia|]. right.
+    rewrite (state_at_end ls s s' Hr) by lia. apply Hd.
+  Qed.
+
+  Corollary fair_decision_any source q0 a b c ls s0 (sigma : nat -> st) (lam : nat -> option label) :
+    run (init source q0 a b c) ls = Some s0 -> no_cmd (map amop_of (pc s0)) = true ->
+    sigma 0 = s0 -> a || b || c = true ->
+    exec st label step inner2 sigma lam -> wfair st label step inner2 sigma lam ->
+    exists t, decided (sigma t) <> None.
+  Proof.
+    intros Hr Hc H0 Habc He Hf.
+    destruct (fair_quiescence_any _ _ _ _ _ _ _ _ _ Hr Hc H0 He Hf) as (t & _ & _ & _ & _ & Hd).
+    exists t. exact (Hd Habc).
+  Qed.
 End Progress.
